@@ -11,7 +11,9 @@ ENCS = ["DER", "OER", "UPER", "CXER", "BXER"]
 
 
 def model_items(b, rng, quick):
-    from ..asn import shapes
+    from ..asn import shapes, der
+    from . import variants
+    vals_by_ref = {}
     # ---- stage 1: corpus + clean allocation counts
     cases, meta = [], {}
     cid = 0
@@ -24,6 +26,7 @@ def model_items(b, rng, quick):
             cases.append(drv.Case(cid, ["dec s=0 t=%s syn=BER in=%s" % (tname, drv.hx(ref))] +
                                   ["enc s=0 syn=%s" % s for s in ENCS]))
             meta[cid] = (tname, t, ref)
+            vals_by_ref[ref] = v
     res = drv.run_parallel(b.exe, cases, confirm=False)
     items = []      # (tname, syn, bytes, nalloc_dec)
     encn = {}       # (tname, ref) -> {enc syn: nalloc}
@@ -33,6 +36,14 @@ def model_items(b, rng, quick):
             continue
         items.append((tname, "BER", ref, int(r.events[0].get("nalloc", 0)), ref))
         encn[(tname, ref)] = {s: (int(e.get("nalloc", 0)), e.get("out"), e.get("rc"), int(e.get("calls", 0) or 0)) for s, e in zip(ENCS, r.events[1:6])}
+        # one foreign but valid BER form of the same value (decimal / non-minimal REALs, time notations, explicit DEFAULTs, unknown
+        # additions ...): other allocation patterns in the decoders, and the seed of the content-garbage histories below
+        try:
+            for fam_, vb_ in variants.ber_semantic_variants(rng, b.mod, t, vals_by_ref[ref], der.Encoder(b.mod), 3)[-1:]:
+                if vb_ != ref and len(vb_) < 4000:
+                    items.append((tname, "BER", vb_, None, ref))
+        except Exception:
+            pass
         for s, es in (("OER", "OER"), ("UPER", "UPER"), ("BXER", "BXER")):
             e = r.events[1 + ENCS.index(es)]
             if int(e.get("rc", -1)) >= 0 and e.get("out") not in (None, "q", "trunc"):
@@ -127,7 +138,11 @@ def run(tier, seed):
                                ["dec s=2 t=%s syn=%s in=%s" % (tname, syn, drv.hx(x)), "enc s=2 syn=DER",
                                 "dec s=0 t=%s syn=%s in=%s chunks=%d rest=0" % (tname, syn, drv.hx(x), k), "reset s=0",
                                 "dec s=0 t=%s syn=%s in=%s" % (tname, syn, drv.hx(x)), "enc s=0 syn=DER", "free s=0"]))
-            for mk, mb in mutate(rng, x, [x], 3)[-3:]:
+            garbage = mutate(rng, x, [x], 3)[-3:]
+            if syn == "BER" and x != ref:
+                # content garbage in a foreign form: single octets changed, the TLV structure mostly intact
+                garbage += [m_ for m_ in mutate(rng, x, [x], 24) if m_[0] in ("flip", "set")][:8]
+            for mk, mb in garbage:
                 hs.append(("garbage-reset-redecode",
                            ["dec s=2 t=%s syn=%s in=%s" % (tname, syn, drv.hx(x)), "enc s=2 syn=DER",
                             "dec s=0 t=%s syn=%s in=%s" % (tname, syn, drv.hx(mb)), "reset s=0",
@@ -142,7 +157,7 @@ def run(tier, seed):
                 cases.append(drv.Case(cid, ops))
                 meta[cid] = ("hist:" + hname, tname, syn, x, 0)
             # C: encoders under OOM and with a failing callback (only once per value: on the BER item)
-            if syn == "BER":
+            if syn == "BER" and x == ref:
                 for es in ENCS:
                     ne, eout, erc = encn[(tname, ref)][es][:3]
                     for k in range(1, min(ne, kcap) + 1):
